@@ -142,6 +142,7 @@ pub fn make_scenario(prop: &str, run_seed: u64, thorough: bool) -> Scenario {
                     sched_seed: run_seed,
                     no_values: false,
                     cpus,
+                    no_quiesce: false,
                 },
             }
         }
@@ -183,6 +184,7 @@ pub fn make_scenario(prop: &str, run_seed: u64, thorough: bool) -> Scenario {
                     sched_seed: run_seed,
                     no_values: false,
                     cpus,
+                    no_quiesce: false,
                 },
             }
         }
@@ -219,6 +221,7 @@ pub fn make_scenario(prop: &str, run_seed: u64, thorough: bool) -> Scenario {
                     sched_seed: run_seed,
                     no_values: false,
                     cpus,
+                    no_quiesce: false,
                 },
             }
         }
@@ -276,6 +279,7 @@ pub fn make_scenario(prop: &str, run_seed: u64, thorough: bool) -> Scenario {
                     sched_seed: run_seed,
                     no_values: conc_free,
                     cpus,
+                    no_quiesce: { let mut qr = root.split(label("no-quiesce")); qr.chance(1, 2) },
                 },
             }
         }
@@ -304,6 +308,7 @@ pub fn make_scenario(prop: &str, run_seed: u64, thorough: bool) -> Scenario {
                     sched_seed: run_seed,
                     no_values: false,
                     cpus,
+                    no_quiesce: false,
                 },
             }
         }
@@ -342,6 +347,7 @@ pub fn make_scenario(prop: &str, run_seed: u64, thorough: bool) -> Scenario {
                     sched_seed: run_seed,
                     no_values: false,
                     cpus,
+                    no_quiesce: false,
                 },
             }
         }
